@@ -15,12 +15,14 @@ import (
 // operandShapeC02: BinaryExpr.String adds no parentheses and ParseExpr hangs
 // whatever parseUnaryExpr returns as a leaf, so a unary operand must never be
 // a bare BinaryExpr.
-func operandShapeC02(c *Ctx) {
+func operandShapeC02(c *Ctx) { operandShapeRule(c, "C02.operandshape") }
+
+func operandShapeRule(c *Ctx, rule string) {
 	p := c.P
-	c.Rule("C02.operandshape", "parseUnaryExpr never returns a bare *BinaryExpr: the binary printer writes `lhs op rhs` without parentheses, so a BinaryExpr standing where the grammar has a single operand prints as text that re-parses with a different grouping")
+	c.Rule(rule, "parseUnaryExpr never returns a bare *BinaryExpr: the binary printer writes `lhs op rhs` without parentheses, so a BinaryExpr standing where the grammar has a single operand prints as text that re-parses with a different grouping")
 	pu := p.Method("Parser", "parseUnaryExpr")
 	if pu == nil {
-		c.Unk("C02.operandshape", "(*Parser).parseUnaryExpr", 0, "anchor not found")
+		c.Unk(rule, "(*Parser).parseUnaryExpr", 0, "anchor not found")
 		return
 	}
 	ts := p.newTypeSets()
@@ -28,19 +30,19 @@ func operandShapeC02(c *Ctx) {
 	names := set.names()
 	key := "(*Parser).parseUnaryExpr: result kinds"
 	if set.top {
-		c.Unk("C02.operandshape", key, pu.Pos(), "result type set is unbounded")
+		c.Unk(rule, key, pu.Pos(), "result type set is unbounded")
 		return
 	}
 	// report per returned kind so that a new kind is a new obligation
 	for _, n := range names {
 		k := "(*Parser).parseUnaryExpr: returns " + n
 		if n == "*BinaryExpr" {
-			c.Bad("C02.operandshape", k, pu.Pos(), "a sign in front of a variable, call or parenthesis is returned as BinaryExpr{-1 * x}: `b / -a` prints as `b / -1 * a`, which re-parses as (b / -1) * a")
+			c.Bad(rule, k, pu.Pos(), "a sign in front of a variable, call or parenthesis is returned as BinaryExpr{-1 * x}: `b / -a` prints as `b / -1 * a`, which re-parses as (b / -1) * a")
 		} else {
-			c.OK("C02.operandshape", k, pu.Pos(), "a single operand")
+			c.OK(rule, k, pu.Pos(), "a single operand")
 		}
 	}
-	c.Floor("C02.operandshape", len(names), 8)
+	c.Floor(rule, len(names), 8)
 }
 
 // formattersC02: the literal formatters are inverted by the lexer.
